@@ -169,12 +169,18 @@ static void *s_par_realloc(struct aws_allocator *a, void *p, size_t oldsize, siz
     pthread_mutex_unlock(&s_par_mu);
     return r;
 }
-static struct aws_allocator s_parent = {
-    .mem_acquire = s_par_acquire,
-    .mem_release = s_par_release,
-    .mem_realloc = s_par_realloc,
-    .mem_calloc = s_par_calloc,
+/* the four configurations of the wrapped allocator: mem_realloc / mem_calloc are optional vtable entries;
+ * without them aws_mem_realloc / aws_mem_calloc emulate the call with acquire (+ copy + release) */
+static struct aws_allocator s_parents[4] = {
+    {.mem_acquire = s_par_acquire, .mem_release = s_par_release, .mem_realloc = s_par_realloc, .mem_calloc = s_par_calloc},
+    {.mem_acquire = s_par_acquire, .mem_release = s_par_release, .mem_realloc = NULL, .mem_calloc = s_par_calloc},
+    {.mem_acquire = s_par_acquire, .mem_release = s_par_release, .mem_realloc = s_par_realloc, .mem_calloc = NULL},
+    {.mem_acquire = s_par_acquire, .mem_release = s_par_release, .mem_realloc = NULL, .mem_calloc = NULL},
 };
+static struct aws_allocator *s_parent = &s_parents[0];
+static int s_cfg_of(const char *s) {
+    return !strcmp(s, "full") ? 0 : !strcmp(s, "norealloc") ? 1 : !strcmp(s, "nocalloc") ? 2 : !strcmp(s, "minimal") ? 3 : -1;
+}
 
 /* ------------------------------------------------------------------ tracer bookkeeping allocator (counting pass-through) */
 static long s_book_live;
@@ -324,13 +330,19 @@ static uint32_t s_digest(const uint8_t *p, size_t n) {
 }
 
 static const char *s_pfx = "P";
-static void s_emit_blk(const void *p) {
+/* the block as the client sees it: its pointer and the size it last asked for (after an emulated
+ * shrinking realloc the wrapped allocator's own idea of the size stays larger) */
+static void s_emit_blk(const void *p, size_t size) {
     if (!p) {
         printf("%s blk null\n", s_pfx);
     } else if (s_is_fake(p)) {
-        printf("%s blk size=%zu h=-\n", s_pfx, s_blk_size(p));
+        printf("%s blk size=%zu h=-\n", s_pfx, size);
     } else {
-        printf("%s blk size=%zu h=%08x\n", s_pfx, s_blk_size(p), (unsigned)s_digest(p, s_blk_size(p)));
+        if (size > s_blk_size(p)) {
+            printf("P MONITOR client block of %zu bytes lives in a block of %zu\n", size, s_blk_size(p));
+            size = s_blk_size(p);
+        }
+        printf("%s blk size=%zu h=%08x\n", s_pfx, size, (unsigned)s_digest(p, size));
     }
 }
 static void s_emit_stat(void) {
@@ -549,7 +561,7 @@ static void s_print(const struct op *o) {
         case OP_ACQ:
         case OP_CAL:
         case OP_RE:
-            s_emit_blk(s_ids[o->id].p);
+            s_emit_blk(s_ids[o->id].p, s_ids[o->id].size);
             s_emit_stat();
             break;
         case OP_DUMP:
@@ -645,19 +657,19 @@ static void s_drop_tracer(bool print) {
     long book = s_book_live;
     for (size_t i = 0; i < MAXID; ++i) {
         if (s_ids[i].p) {
-            aws_mem_release(&s_parent, s_ids[i].p);
+            aws_mem_release(s_parent, s_ids[i].p);
             s_ids[i].p = NULL;
         }
     }
     if (print) {
         printf(
             "P destroy wrapped=%s client_blocks=%zu bookkeeping=%ld parent_after=%ld\n",
-            w == &s_parent ? "ok" : "BAD",
+            w == s_parent ? "ok" : "BAD",
             blocks,
             book,
             s_par_live);
     } else {
-        HC_CHECK(w == &s_parent && s_par_live == 0);
+        HC_CHECK(w == s_parent && s_par_live == 0);
     }
     s_have_inj = false;
     s_depth = 0;
@@ -671,15 +683,17 @@ static int s_interpreter(void) {
             s_drop_tracer(false);
             s_book_live = 0;
             hc_case_begin(t[1]);
-        } else if (!strcmp(t[0], "new") && n == 3) {
+        } else if (!strcmp(t[0], "new") && (n == 3 || n == 4)) {
             int lvl = !strcmp(t[1], "none") ? 0 : !strcmp(t[1], "bytes") ? 1 : !strcmp(t[1], "stacks") ? 2 : -1;
-            if (s_tr || lvl < 0 || !s_is_num(t[2])) {
+            int cfg = n == 4 ? s_cfg_of(t[3]) : 0;
+            if (s_tr || lvl < 0 || cfg < 0 || !s_is_num(t[2])) {
                 printf("bad-op\n");
                 continue;
             }
             size_t frames = hc_parse_size(t[2]);
             s_book_live = 0;
-            s_tr = aws_mem_tracer_new(&s_parent, NULL, (enum aws_mem_trace_level)lvl, frames);
+            s_parent = &s_parents[cfg];
+            s_tr = aws_mem_tracer_new(s_parent, NULL, (enum aws_mem_trace_level)lvl, frames);
             s_level = lvl;
             s_eff_frames = frames > 128 ? 128 : frames;
             s_eff_frames = s_eff_frames ? s_eff_frames : 8;
@@ -720,7 +734,7 @@ static int s_interpreter(void) {
                     p[i] = (uint8_t)(seed + 7 * i);
                 }
             }
-            s_emit_blk(p);
+            s_emit_blk(p, s_ids[id].size);
         } else {
             struct op o = s_parse(t, n);
             if (!s_tr || o.k == OP_BAD) {
@@ -864,10 +878,13 @@ static void *s_worker(void *arg) {
 }
 
 static int s_threads(int argc, char **argv) {
-    if (argc != 8) {
-        fprintf(stderr, "usage: memtrace threads <seed> <nthreads> <rounds> <ops> <level> <frames>\n");
+    if (argc != 8 && argc != 9) {
+        fprintf(stderr, "usage: memtrace threads <seed> <nthreads> <rounds> <ops> <level> <frames> [full|norealloc|nocalloc|minimal]\n");
         return 2;
     }
+    int cfg = argc == 9 ? s_cfg_of(argv[8]) : 0;
+    HC_CHECK(cfg >= 0);
+    s_parent = &s_parents[cfg];
     uint64_t seed = strtoull(argv[2], NULL, 10);
     unsigned nt = (unsigned)atoi(argv[3]);
     unsigned rounds = (unsigned)atoi(argv[4]);
@@ -876,7 +893,7 @@ static int s_threads(int argc, char **argv) {
     size_t frames = (size_t)atol(argv[7]);
     HC_CHECK(nt >= 1 && nt <= TMAX);
     s_threads_mode = true;
-    s_tr = aws_mem_tracer_new(&s_parent, NULL, (enum aws_mem_trace_level)lvl, frames);
+    s_tr = aws_mem_tracer_new(s_parent, NULL, (enum aws_mem_trace_level)lvl, frames);
     s_level = lvl;
     for (unsigned i = 0; i < nt; ++i) {
         s_w[i].id = i;
@@ -927,7 +944,7 @@ static int s_threads(int argc, char **argv) {
     s_tr = NULL;
     printf(
         "P destroy wrapped=%s bookkeeping=%ld parent_after=%ld keeps=%ld moves=%ld\n",
-        w == &s_parent ? "ok" : "BAD",
+        w == s_parent ? "ok" : "BAD",
         s_book_live,
         s_par_live,
         s_par_keeps,
